@@ -29,6 +29,10 @@ CHECKS = {
    tech="explicit-state exploration of the real debugger step function with a per-state denotation invariant against the consensus evaluator",
    text="The subject is the transition system CldbRun::step/run_step itself. Every (program, environment) of two finite families (all CLVM trees with <= 4 (thorough 5) leaves over a 16-atom alphabet x 3 environments; well-formed nested expressions of depth <= 2 over f r l c + = i a x 2 environments) is stepped from the initial state to termination; in every visited state the continuation stack is reified and evaluated with clvmr and must denote the program's consensus result; every emitted row with operator, arguments and value is re-evaluated with clvmr; row numbering, termination (Final / Throw / Failure) and hex-vs-source equality are checked. All traces are traces of the implementation (no separate model).",
    note="Trusted: clvmr; row texts are re-read with the modern reader (round trip established by C09). Known findings: F15 (pair in operator position) and F25 (pending `i` operator rows), matched by input class / symptom."),
+ "C15": dict(engine="parsemc", cat="model_checking", ref="DESIGN.md 4/C15",
+   tech="explicit-state exploration of the byte-at-a-time reader over all strings up to a length bound, locations checked against an independent tokenizer",
+   text="The reader is a state machine (ParsePartialResult::push); every string of length <= 5 (thorough 7) over a 16-symbol alphabet covering every lexical class, and every sequence of <= 4 (5) token/separator units over 15 tokens x 4 separators (multi-line, comments, both quote styles with escapes, #-forms, dotted tails), is pushed byte by byte from the initial state, finalized and also parsed whole. An independent tokenizer gives every leaf's exact span and every list's parentheses; whole vs byte-wise results are compared including locations; error locations must be in bounds. states = strings reached, transitions = push calls.",
+   note="Trusted: the harness tokenizer (its lexical rules are the reader's documented ones; accepted texts whose shape it does not model are counted and make no claim). Compiler-error locations are checked in C14."),
  "C20": dict(engine="optab", cat="exploration", ref="DESIGN.md 4/C20",
    tech="complete enumeration of the finite operator tables plus one compiled-and-run program per operator",
    text="The property's domain is finite (49 names x 3 versions, 259 opcodes) and is enumerated completely on every run: inverse and monotonicity clauses on the tables, assembler/disassembler per opcode and version, and for each operator a hand-assembled program under the consensus evaluator compared with the tools' runner, the stepping evaluator (4 spellings) and code from the modern (cl21, cl24, optimise on/off) and classic compilers.",
